@@ -824,7 +824,7 @@ type c17sessOut struct {
 	didAcquire                   bool
 }
 
-func c17runSession(d *c17def, cur, tgt string, auth bool, seg int, user string) *c17sessOut {
+func c17runSession(d *c17def, cur, tgt string, auth bool, seg int, user string, pre ...func()) *c17sessOut {
 	out := &c17sessOut{}
 	secret := ""
 	if auth {
@@ -855,6 +855,9 @@ func c17runSession(d *c17def, cur, tgt string, auth bool, seg int, user string) 
 		if user != "" {
 			// a user option layered on top of the definition's own options
 			opts = append(opts, options.WithDefaultDesiredPriv(user))
+		}
+		for _, f := range pre { // history: earlier loads of the same name, mutated in place
+			f()
 		}
 		var p *platform.Platform
 		var err error
@@ -1730,6 +1733,11 @@ func runC17(c *ctx) {
 				}
 				c17session(c, d, f[3], f[4], f[5] == "1", seg, user, true)
 			}
+		case len(f) == 4 && f[0] == "c17hist":
+			if d := c17find(defs, f[1], f[2]); d != nil {
+				mode, _ := strconv.Atoi(f[3])
+				c17history(c, defs, d, mode, true, true)
+			}
 		case len(f) == 2 && f[0] == "c17graph":
 			sd, _ := strconv.ParseUint(f[1], 10, 64)
 			c17graph(c, []uint64{sd}, true)
@@ -1811,6 +1819,14 @@ func runC17(c *ctx) {
 	}
 	c.res.Exhaustive = true
 	c.res.ExhaustiveOf = fmt.Sprintf("%d advertised names, %d embedded definitions and variants, all %d (current, target, secret) sessions", len(adv), len(defs), len(jobs))
+	// 4b. histories: load, mutate the instance through every handle, load the same name again
+	for i, d := range defs {
+		for _, mode := range []int{1, 0, 2} { // aliasing of two fresh instances first
+			// the device session after the history: a rotating third of the definitions (all in thorough)
+			withSession := c.thorough() || (uint64(i)+c.seed+uint64(mode))%3 == 0
+			c17history(c, defs, d, mode, withSession, false)
+		}
+	}
 	// 5. random definitions / variants
 	r := c.rng.Fork()
 	var seeds []uint64
